@@ -59,13 +59,23 @@ fn bases() -> Vec<Base> {
         Base { name: "thin-triangle", centre: (50000000.0, 0.5), p: (0.0, 0.0), q: (100000000.0, 1.0), r: (100000000.0, 1.00000001) },
         Base { name: "mixed-magnitudes", centre: (9.313225746154785e-10, 9.313225746154785e-10), p: (-1073741824.0, -1073741824.0), q: (1073741824.0, 1073741824.0000002), r: (1.0, -1.0) },
         Base { name: "steep-far-origin", centre: (100000000.25, 300000000.75), p: (100000000.0, 300000000.0), q: (100000001.0, 300000003.0), r: (99999999.0, 300000000.0) },
+        // UTM-like metre coordinates: differences are not exactly representable and the rounding error of the plain determinant (~1e-5)
+        // is far above any absolute epsilon while the true determinant near the segment is ~1e-10
+        Base { name: "utm-segment-midpoint", centre: (450162.59, 4655939.075), p: (443201.31, 4649776.22), q: (457123.87, 4662101.93), r: (450000.5, 4650000.25) },
+        Base { name: "utm-collinear-extension", centre: (471046.43, 4674427.64), p: (443201.31, 4649776.22), q: (457123.87, 4662101.93), r: (460000.0, 4640000.0) },
+        Base { name: "web-mercator-sliver", centre: (-8237642.318702244, 4970241.327215406), p: (-8238310.235647004, 4969803.0), q: (-8236974.401757484, 4970679.654430812), r: (-8237000.25, 4969000.5) },
+        // asymmetric line through the origin with ~2^52 coordinates; the window centre q/16 is exactly collinear, the products differ in rounding
+        Base { name: "asymmetric-2^52-collinear", centre: (3689364599452149.0 / 16.0, 1410109763140548.0 / 16.0), p: (0.0, 0.0), q: (3689364599452149.0, 1410109763140548.0), r: (3689364599452149.0, 0.0) },
+        // one endpoint small with many significant bits, the other ~1e6: coordinate differences are themselves rounded
+        Base { name: "small-endpoint-large-far", centre: (617284.0, 3827160.8), p: (0.1, 0.3), q: (1234567.9, 7654321.3), r: (1000000.0, -50000.5) },
+        Base { name: "small-endpoint-1e9", centre: (-216049382.6875, -327160493.75), p: (0.7, -0.9), q: (-432098766.075, -654320986.6), r: (5.5, -700000000.25) },
         Base { name: "negative-quadrant", centre: (-0.7, -2.1), p: (-7.0, -21.0), q: (-70.0, -210.0), r: (0.0, 0.0) },
     ]
 }
 
 pub fn run(mut run: Run) -> i32 {
     let w: i64 = run.ctx.pick(96, 384);
-    run.rule = "for each of 8 ill-conditioned base configurations the query point ranges over ALL w x w points of the ulp lattice around the window centre (quick w=96, thorough w=384): \
+    run.rule = "for each of 14 ill-conditioned base configurations the query point ranges over ALL w x w points of the ulp lattice around the window centre (quick w=96, thorough w=384): \
         orient2d (f64 and f32), Line intersects Coord, Line intersects Line, line_intersection is_some, coord_pos_relative_to_ring, Polygon/Triangle/Rect coordinate_position and contains, winding_order, \
         quick_hull/graham_hull vertex sets, all against exact big-integer arithmetic on the dyadic values; integer kernels on all lattice triples at large magnitude; \
         distinct_nontrivial = number of window points where the naive f64 determinant has the wrong sign (the inputs where robustness matters)"
